@@ -1741,7 +1741,13 @@ class HasRounds(GenericHandler):
         assert isinstance(vary_rounds, int)
         lower = linear_to_native(default_rounds - vary_rounds, False)
         upper = linear_to_native(default_rounds + vary_rounds, True)
-        return cls._clip_to_desired_rounds(lower), cls._clip_to_desired_rounds(upper)
+        # NOTE: also keeping the range inside the hash's hard limits, which the
+        #       desired limits are not required to mention.
+        lower = max(cls._clip_to_desired_rounds(lower), cls.min_rounds)
+        upper = cls._clip_to_desired_rounds(upper)
+        if cls.max_rounds:
+            upper = min(upper, cls.max_rounds)
+        return lower, upper
 
     def __init__(self, rounds=None, **kwds):
         super().__init__(**kwds)
